@@ -317,6 +317,58 @@ func runC20NoHosts() (string, string) {
 	return strings.Join(events, " "), sp.snapshot()
 }
 
+// runC20Shared: two services whose names differ only in '.' / '_' keep their statistics in one scope (the scope name has
+// every '.' replaced). The second one is created while the first has a connection open; when both are quiescent the
+// equations hold for the scope - what one service has counted is not wiped or counted again by the other's creation.
+func runC20Shared() (string, string) {
+	cl := newSimCluster(1)
+	defer cl.close()
+	cl.setLayout([][3]int{{0, 16383, 0}})
+	simProxySeq++
+	base := fmt.Sprintf("shared%d", simProxySeq)
+	events := []string{"L0"}
+	get := func(sc *simClient, key string) {
+		sc.send(bulkArr([]byte("get"), []byte(key)).bytes(), nil)
+		rp, err := sc.recv(3 * time.Second)
+		if err != nil {
+			events = append(events, "NO-REPLY")
+		} else if rp.t == '-' {
+			events = append(events, "q:get:f")
+		} else {
+			events = append(events, "q:get:s")
+		}
+	}
+	simProxyName = base + ".svc"
+	a := startRedisProxy([]string{cl.nodes[0].addr}, 0)
+	simProxyName = ""
+	defer stopProxy(a)
+	events = append(events, "a", "x") // the launcher's probe
+	a.waitSlotsLoaded(1)
+	waitFor(2*time.Second, func() bool { return a.counter("downstream.cx_destroy_total") >= 1 })
+	c1 := dialProxy(a.addr)
+	events = append(events, "a")
+	get(c1, "k1")
+	simProxyName = base + "_svc"
+	b := startRedisProxy([]string{cl.nodes[0].addr}, 0)
+	simProxyName = ""
+	defer stopProxy(b)
+	events = append(events, "a", "x")
+	b.waitSlotsLoaded(2)
+	waitFor(2*time.Second, func() bool { return a.counter("downstream.cx_destroy_total") >= 2 })
+	c2 := dialProxy(b.addr)
+	events = append(events, "a")
+	get(c2, "k2")
+	get(c1, "k3")
+	c1.close()
+	events = append(events, "x")
+	c2.close()
+	events = append(events, "x")
+	waitFor(3*time.Second, func() bool {
+		return a.gauge("downstream.cx_active") == 0 && a.counter("downstream.cx_total") == a.counter("downstream.cx_destroy_total")
+	})
+	return strings.Join(events, " "), a.snapshot()
+}
+
 // runC20Abrupt: a client pipelines more requests than the session takes in at once (the reader is busy handing them
 // on) to slow nodes and resets its connection: replies can no longer be written. Whatever was read is counted once, by
 // its outcome: at quiescence the equations hold.
@@ -387,6 +439,12 @@ func init() {
 			fmt.Fprintln(cases, ev)
 			fmt.Fprintln(impl, snap)
 			hist["a service without endpoints"]++
+		}
+		{
+			ev, snap := runC20Shared()
+			fmt.Fprintln(cases, ev)
+			fmt.Fprintln(impl, snap)
+			hist["two services sharing one statistics scope"]++
 		}
 		for i := 0; i < *fN; i++ {
 			if expired() {
